@@ -452,6 +452,13 @@ def inlined_current(repo, f, node=None):
         g.node._bound_self = None
         if g.cls is not None:
             deco = {getattr(d, 'id', getattr(d, 'attr', None)) for d in g.node.decorator_list}
+            if deco == {'staticmethod'}:
+                # a static helper: no receiver to bind; read it as a plain function (the decorator is not behaviour of the body)
+                plain = clone(g.node)
+                plain.decorator_list = []
+                plain._key = g.node._key
+                plain._bound_self = None
+                return plain
             if deco:
                 return None
             if isinstance(call.func, ast.Attribute) and isinstance(call.func.value, ast.Name) and call.func.value.id == 'self':
@@ -497,6 +504,20 @@ def localise_new_module_defs(repo, f, node):
     if not order:
         return node
     new = clone(node)
+    # a new module-level NAME that is a plain number / string (possibly computed from others) reads as that literal wherever it is used
+    consts = module_consts(repo, f)
+    literal = {nm: consts[nm] for nm in order if nm in consts and not any(isinstance(y, ast.Call) for y in ast.walk(f.module.assigns[nm]))}
+    if literal:
+        class L(ast.NodeTransformer):
+            def visit_Name(self, n):
+                if isinstance(n.ctx, ast.Load) and n.id in literal:
+                    return ast.copy_location(ast.Constant(value=literal[n.id]), n)
+                return n
+        new = L().visit(new)
+        ast.fix_missing_locations(new)
+        order = [nm for nm in order if nm not in literal]
+        if not order:
+            return new
     pos = 1 if (new.body and isinstance(new.body[0], ast.Expr) and isinstance(new.body[0].value, ast.Constant) and isinstance(new.body[0].value.value, str)) else 0
     for nm in order:            # dependencies were appended after their users: insert in reverse so that they come first
         st = ast.Assign(targets=[ast.Name(id=nm, ctx=ast.Store())], value=clone(f.module.assigns[nm]))
@@ -578,6 +599,22 @@ def apply_tables(repo):
             back = recover_names(f)
             if back or n_sw:
                 f.roles = dict(getattr(f, 'roles', {}) or {}, **{'recovered': back, 'operand_swaps_undone': n_sw})
+    # functions the reference does not have and that no function calls any more after inlining: their body is judged where it was
+    # inlined, not as a free-standing function whose parameters could be anything
+    for rel, m in repo.modules.items():
+        new = [f for q, f in m.funcs.items() if ('%s:%s#src' % (rel, q)) not in ref and '<locals>' not in q and (rel + '#module_assigns') in ref]
+        if not new:
+            continue
+        called = set()
+        for g in m.funcs.values():
+            for c in ast.walk(g.node):
+                if isinstance(c, ast.Call):
+                    nm = c.func.attr if isinstance(c.func, ast.Attribute) else (c.func.id if isinstance(c.func, ast.Name) else None)
+                    if nm and g.name != nm:
+                        called.add(nm)
+        for f in new:
+            if f.name not in called:
+                f.roles = dict(getattr(f, 'roles', {}) or {}, inlined_helper=True)
     for (rel, q), table in ROLE_TABLES.items():
         m = repo.modules.get(rel)
         if m is None or q not in m.funcs:
